@@ -3302,3 +3302,35 @@ mut("c07-quiet-offset-helper-64-bits", ["C07"], [(HF, '''	seekDistance := uint64
 '''), (HF, '''	seekDistance := uint64(height) * 32
 ''', '''	seekDistance := zzOffset(height, 32)
 ''')], [], new_files=[("headerfs/zz_offset.go", "package headerfs\n\nfunc zzOffset(height, size uint32) uint64 { return uint64(height) * uint64(size) }\n")])
+
+# ---- batch 19 ----
+mut("c01-checkpoint-cursor-advanced-before-the-write", ["C01"], [(BM, '''			if nodeHash.IsEqual(b.nextCheckpoint.Hash) {
+				receivedCheckpoint = true
+''', '''			if nodeHash.IsEqual(b.nextCheckpoint.Hash) {
+				receivedCheckpoint = true
+				b.nextCheckpoint = b.findNextHeaderCheckpoint(node.Height)
+''')], ["C01.O9"])
+mut("c01-inv-checkpoint-cursor-rederived-by-the-abandon-helper", ["C01"], [(BM, '''			if nodeHash.IsEqual(b.nextCheckpoint.Hash) {
+				receivedCheckpoint = true
+''', '''			if nodeHash.IsEqual(b.nextCheckpoint.Hash) {
+				receivedCheckpoint = true
+				zzNoteCheckpoint(node.Height)
+''')], [], new_files=[("zz_note.go", "package neutrino\n\nfunc zzNoteCheckpoint(h int32) { log.Tracef(\"checkpoint at %d\", h) }\n")])
+HI = "headerfs/index.go"
+mut("c07-height-lookup-served-from-a-memo", ["C07"], [(HI, '''func (h *headerIndex) heightFromHash(hash *chainhash.Hash) (uint32, error) {
+	var height uint32
+''', '''func (h *headerIndex) heightFromHash(hash *chainhash.Hash) (uint32, error) {
+	if v, ok := zzHeights.Load(*hash); ok {
+		return v.(uint32), nil
+	}
+	var height uint32
+''')], ["C07.V9"], new_files=[("headerfs/zz_memo.go", "package headerfs\n\nimport \"sync\"\n\nvar zzHeights sync.Map\n")])
+mut("c04-cfheaders-paired-with-blocks-by-height", ["C03", "C04"], [(BM, '''	matchingBlockHeaders, startHeight, err := blockHeaders.FetchHeaderAncestors(
+		uint32(numHeaders-1), &msg.StopHash,
+	)
+''', '''	zzTip, _, _ := blockHeaders.ChainTip()
+	zzStop := zzTip.BlockHash()
+	matchingBlockHeaders, startHeight, err := blockHeaders.FetchHeaderAncestors(
+		uint32(numHeaders-1), &zzStop,
+	)
+''')], ["C04.G2", "C03.G1"])
